@@ -163,7 +163,7 @@ func Load(o LoadOpts) (*Prog, error) {
 		}
 	}
 	for fn := range o.Overlay {
-		if !used[fn] {
+		if !used[fn] && !o.AllowUnusedOverlay {
 			return nil, fmt.Errorf("overlay file %s is not a compiled file of any listed module package", fn)
 		}
 	}
@@ -248,7 +248,7 @@ func Load(o LoadOpts) (*Prog, error) {
 		checked[pk.PkgPath] = tp
 		pk.Types, pk.TypesInfo, pk.TypesSizes = tp, info, sizes
 	}
-	p := &Prog{Fset: fset, Pkgs: mods, byPath: byPath, allTypes: map[string]*types.Package{}, RepoDir: o.RepoDir, Tags: o.Tags,
+	p := &Prog{Overlay: o.Overlay, Fset: fset, Pkgs: mods, byPath: byPath, allTypes: map[string]*types.Package{}, RepoDir: o.RepoDir, Tags: o.Tags,
 		fns: map[*types.Func]*FuncSrc{}}
 	var walk func(tp *types.Package)
 	walk = func(tp *types.Package) {
